@@ -266,3 +266,106 @@ func RAltAll(c *core.Ctx) {
 		c.Anchor("loops over the children of an Alternate in the analysis files")
 	}
 }
+
+// ---------------------------------------------------------------------------
+// R-BUMPWALK: which nodes the bump-along walk may look through.
+//
+// finalOptimize walks down the left edge of the tree to find a leading
+// unbounded single-character loop and, if it finds one, inserts
+// UpdateBumpalong so that a failed attempt restarts after the loop's run
+// instead of at every position inside it.  Skipping those positions is sound
+// only if an attempt starting inside the run could not succeed where the
+// attempt from its beginning failed.  That holds when the walk passed only
+//   Atomic       (grouping without observable side effects)
+//   Concatenate  (its first child starts where it starts)
+// and fails when it looks through a Capture (a backreference reads how much
+// the loop took: (\w*-)\1 on "ab-b-") or an Alternate (the loop is not
+// guaranteed to be at the beginning).
+// ---------------------------------------------------------------------------
+
+func RBumpWalk(c *core.Ctx) {
+	c.Rule("R-BUMPWALK", "the left-edge walk in finalOptimize that decides where UpdateBumpalong is inserted steps into a child (node = node.Children[0]) only under tests for the kinds Atomic and Concatenate; stepping through a Capture or an Alternate makes the skipped start positions observable (a backreference to the group, another branch)", 2)
+	p := c.P
+	syn := p.Pkg("syntax")
+	info := syn.TypesInfo
+	fd, _ := p.DeclOf(p.LookupFunc("syntax", "RegexNode.finalOptimize"))
+	tField := p.LookupField("syntax", "RegexNode", "T")
+	children := p.LookupField("syntax", "RegexNode", "Children")
+	if fd == nil || tField == nil || children == nil {
+		c.Anchor("syntax.RegexNode.finalOptimize / RegexNode.T / Children")
+		return
+	}
+	c.Visit("syntax.(*RegexNode).finalOptimize")
+	allowed := map[string]string{"NtAtomic": "no side effects visible outside, nothing refers to its inside", "NtConcatenate": "its first child starts at the same position"}
+	reasons := map[string]string{
+		"NtCapture":   "a backreference to the group reads how much the loop consumed, so an attempt that starts inside the loop's run can succeed where the one from its beginning failed ((\\w*-)\\1 on \"ab-b-\")",
+		"NtAlternate": "the loop is only the beginning of one branch; the other branches may match from the skipped positions",
+	}
+	// descent statements: X = X.Children[0]
+	isDescent := func(st ast.Stmt) bool {
+		as, ok := st.(*ast.AssignStmt)
+		if !ok || len(as.Lhs) != 1 || len(as.Rhs) != 1 {
+			return false
+		}
+		ie, ok := ast.Unparen(as.Rhs[0]).(*ast.IndexExpr)
+		if !ok || core.FieldOf(info, ie.X) != children {
+			return false
+		}
+		se := ast.Unparen(ie.X).(*ast.SelectorExpr)
+		return types.ExprString(se.X) == types.ExprString(as.Lhs[0])
+	}
+	n := 0
+	ast.Inspect(fd.Body, func(x ast.Node) bool {
+		loop, ok := x.(*ast.ForStmt)
+		if !ok || loop.Cond != nil {
+			return true
+		}
+		ast.Inspect(loop.Body, func(y ast.Node) bool {
+			ifs, ok := y.(*ast.IfStmt)
+			if !ok {
+				return true
+			}
+			descends := false
+			for _, st := range ifs.Body.List {
+				if isDescent(st) {
+					descends = true
+				}
+			}
+			if !descends {
+				return true
+			}
+			// kinds tested in the condition
+			kinds := 0
+			ast.Inspect(ifs.Cond, func(z ast.Node) bool {
+				be, ok := z.(*ast.BinaryExpr)
+				if !ok || be.Op != token.EQL || core.FieldOf(info, be.X) != tField {
+					return true
+				}
+				id, ok := ast.Unparen(be.Y).(*ast.Ident)
+				if !ok {
+					return true
+				}
+				kinds++
+				n++
+				key := fmt.Sprintf("finalOptimize / the bump-along walk may step through %s", id.Name)
+				if why, ok := allowed[id.Name]; ok {
+					c.OK(key, be.Pos(), "%s", why)
+				} else if why, ok := reasons[id.Name]; ok {
+					c.Bad(key, be.Pos(), "%s", why)
+				} else {
+					c.Unknown(key, be.Pos(), "no soundness argument recorded for stepping through this kind")
+				}
+				return true
+			})
+			if kinds == 0 {
+				n++
+				c.Unknown("finalOptimize / a descent of the bump-along walk is guarded by a kind test", ifs.Pos(), "the walk steps into a child under a condition that is not a kind test: %s", types.ExprString(ifs.Cond))
+			}
+			return true
+		})
+		return true
+	})
+	if n == 0 {
+		c.Anchor("the descent loop of finalOptimize")
+	}
+}
